@@ -2,7 +2,7 @@
   C13 — Enumeration members and constants keep correct names, types and values.
   ONLY property theorems and non-vacuity examples live here; helper lemmas and the
   vocabulary of the statements (NoWordPrefix, SharedWords, IsNsStripped, LacksNsPrefix,
-  unsignedWidths, platformUnsigned, ResolvesTo, ResolvesTo1) are in GIVerif/Lemmas/EnumConst.lean,
+  unsignedWidths, platformUnsigned, ResolvesTo, ChainTo) are in GIVerif/Lemmas/EnumConst.lean,
   the executable model in GIVerif/Model/EnumConst.lean.
 
   Hypotheses beyond the property's own wording:
@@ -22,13 +22,12 @@
     namespace node is named like the fundamental type; declared types and alias targets are
     keys of `ast.type_names` or names of aliases (pointer stars are canonicalised by the
     model and compared with the real code, but the range theorems do not speak about them);
-  * `C13_const_range_partial` excludes EXACTLY (a) the platform-width unsigned types
-    `platformUnsigned` = gulong, gsize, guintptr, unsigned long long and (b) types reached
-    through two or more typedefs (`ResolvesTo1` instead of `ResolvesTo`); both exclusions
-    are genuine defects of the unchanged code, witnessed by
-    `C13_const_range_counterexample_platform` and `C13_const_range_counterexample_chain`
-    and reported by the harness under the keys `const-unwrapped:<type>` and
-    `const-unwrapped:alias-chain:<type>`;
+  * `C13_const_range_partial` excludes EXACTLY the platform-width unsigned types
+    `platformUnsigned` = gulong, gsize, guintptr, reached directly or through typedefs of any
+    depth (`ResolvesTo`); the exclusion is a genuine defect of the unchanged code, witnessed by
+    `C13_const_range_counterexample_platform` and reported by the harness under the key
+    `const-unwrapped:platform-width`.  Typedef chains of any length (`C13_const_chain`) and
+    `unsigned long long` are covered by the theorem since /repo ecb96bb and 6ff1643;
   * double constants (`'%f'`) are not modelled: validated by the harness only.
 -/
 import GIVerif.Lemmas.EnumConst
@@ -65,11 +64,20 @@ theorem C13_source_shape :
        "node.add_symbol_reference(symbol)",
        "return node"]
     ∧ Gen.constWrapShape = ["else:str(const_int)"]
+    ∧ Gen.constUnaliasedShape =
+      ["if symbol.base_type is not None: ;     typeval = self._create_type_from_base(symbol.base_type) ; else: ;     typeval = ast.TYPE_INT",
+       "unaliased = typeval",
+       "self._resolve_type_from_ctype(unaliased)",
+       "if typeval.target_giname and typeval.ctype: ;     target = self.lookup_giname(typeval.target_giname) ;     target = self.resolve_aliases(target) ;     if isinstance(target, ast.Type): ;         unaliased = target"]
+    ∧ Gen.resolveAliasesShape =
+      ["seen = set()",
+       "while isinstance(typenode, ast.Alias) and id(typenode) not in seen: ;     seen.add(id(typenode)) ;     target = typenode.target ;     if not target.resolved and target.ctype: ;         target = target.clone() ;         self._resolve_type_from_ctype(target) ;     if target.target_giname is not None: ;         typenode = self.lookup_giname(target.target_giname) ;     else: ;         try: ;             typenode = ast.type_names[target.target_fundamental] ;         except KeyError: ;             break",
+       "return typenode"]
     ∧ Gen.lexerIdentPattern = "[a-zA-Z_][a-zA-Z_0-9]*"
     ∧ Gen.constBranches.map (·.1) = [fConstString, fConstInt, fConstBoolean, fConstDouble]
     ∧ Gen.constBoolLits = (['t','r','u','e'], ['f','a','l','s','e'])
     ∧ Gen.constHiddenPrefix = ['_'] ∧ Gen.constHeaderSuffix = ['.','h'] :=
-  ⟨rfl, rfl, rfl, rfl, rfl, rfl, rfl, rfl, rfl, rfl, rfl⟩
+  ⟨rfl, rfl, rfl, rfl, rfl, rfl, rfl, rfl, rfl, rfl, rfl, rfl, rfl⟩
 
 /-- The character-list type tables used by the model are the shared `ast.type_names` /
     `ast.TYPE_*` tables of Gen/TypeNames.lean. -/
@@ -264,7 +272,7 @@ theorem C13_const_bool (idp symp : List Str) (nodes : List Node) (s : ConstSym) 
 
 /-- The property for unsigned constants at full strength: for EVERY unsigned type of the
     table, reached through ANY number of typedefs. It does not hold for the unchanged code
-    (see the two counterexamples and `C13_const_range_full_fails`). -/
+    (see `C13_const_range_counterexample_platform` and `C13_const_range_full_fails`). -/
 def C13_const_range_full : Prop :=
   ∀ (idp symp : List Str) (nodes : List Node) (s : ConstSym) (c : ConstNode) (v : Int) (t f : Str) (w : Nat),
     s.constString = none → s.constInt = some v → s.baseType = some t →
@@ -272,18 +280,19 @@ def C13_const_range_full : Prop :=
     ResolvesTo idp nodes t f → unsignedWidth f = some w →
     ∃ value : Int, c.value = some (decimal value) ∧ 0 ≤ value ∧ value < 2 ^ w ∧ value % 2 ^ w = v % 2 ^ w
 
-/-- Unsigned constants of a fixed-width type (guint8/16/32/64, guint, gushort, gunichar and
-    every C spelling that `ast.type_names` maps to them), declared directly or through one
-    typedef: the emitted value lies in `[0, 2^w)` and is congruent to the constant. -/
+/-- Unsigned constants of a type whose width is the same on every platform (guint8/16/32/64,
+    guint, gushort, gunichar, unsigned long long and every C spelling that `ast.type_names` maps
+    to them), declared directly or through typedefs of ANY depth: the emitted value lies in
+    `[0, 2^w)` and is congruent to the constant. -/
 theorem C13_const_range_partial (idp symp : List Str) (nodes : List Node) (s : ConstSym) (c : ConstNode)
     (v : Int) (t f : Str) (w : Nat)
     (hs : s.constString = none) (hi : s.constInt = some v) (ht : s.baseType = some t)
     (h : createConst idp symp nodes s = .ok (some c))
-    (hr : ResolvesTo1 idp nodes t f) (hw : unsignedWidth f = some w) (hplat : f ∉ platformUnsigned) :
+    (hr : ResolvesTo idp nodes t f) (hw : unsignedWidth f = some w) (hplat : f ∉ platformUnsigned) :
     ∃ value : Int, c.value = some (decimal value) ∧ 0 ≤ value ∧ value < 2 ^ w ∧ value % 2 ^ w = v % 2 ^ w := by
   obtain ⟨hval, _, _⟩ := (createConst_int hs hi h).1 t ht
   have hm : wrapModulus f = some (2 ^ w) := wrap_table_complete (f, w) (unsignedWidth_mem hw) hplat
-  rw [constUnaliased_of_resolves1 hr, constIntValue_of_modulus hm] at hval
+  rw [constUnaliased_of_resolves hr, constIntValue_of_modulus hm] at hval
   have hpos : (0 : Int) < ((2 ^ w : Nat) : Int) := by
     exact_mod_cast Nat.pos_of_ne_zero (by simp)
   have hcast : (((2 ^ w : Nat) : Int)) = (2 : Int) ^ w := by push_cast; rfl
@@ -292,18 +301,27 @@ theorem C13_const_range_partial (idp symp : List Str) (nodes : List Node) (s : C
     exact Int.emod_lt_of_pos v hpos
   · rw [hcast, Int.emod_emod]
 
-/-- Constants whose type resolves (directly or through one typedef) to a type that is not an
-    unsigned integer type keep the integer as written; so do constants without a cast
-    (typed gint). -/
+/-- A typedef of a typedef of … is followed to its end: whatever the number of typedefs between
+    the declared type and a key of `ast.type_names`, the type `_create_const` tests in its wrap
+    chain is the fundamental type at the end; the typedefs passed are pairwise distinct nodes of
+    the namespace (so the `seen` guard of `resolve_aliases` never cuts a finite chain short). -/
+theorem C13_const_chain (idp : List Str) (nodes : List Node) (t f : Str) (p : List Node)
+    (h : ChainTo idp nodes t f p) :
+    constUnaliased idp nodes t = some f ∧ p.Nodup ∧ p.length ≤ nodes.length ∧ ∀ x ∈ p, x ∈ nodes :=
+  ⟨constUnaliased_of_chain h, h.nodup, h.length_le, h.subset⟩
+
+/-- Constants whose type resolves (directly or through typedefs of any depth) to a type that
+    is not an unsigned integer type keep the integer as written; so do constants without a
+    cast (typed gint). -/
 theorem C13_const_signed (idp symp : List Str) (nodes : List Node) (s : ConstSym) (c : ConstNode)
     (v : Int) (t f : Str)
     (hs : s.constString = none) (hi : s.constInt = some v) (ht : s.baseType = some t)
     (h : createConst idp symp nodes s = .ok (some c))
-    (hr : ResolvesTo1 idp nodes t f) (hw : unsignedWidth f = none) :
+    (hr : ResolvesTo idp nodes t f) (hw : unsignedWidth f = none) :
     c.value = some (decimal v) := by
   obtain ⟨hval, _, _⟩ := (createConst_int hs hi h).1 t ht
   have hm : wrapModulus f = none := wrapModulus_none_of_not_unsigned hw
-  rw [constUnaliased_of_resolves1 hr, constIntValue_of_none hm] at hval
+  rw [constUnaliased_of_resolves hr, constIntValue_of_none hm] at hval
   exact hval
 
 theorem C13_const_uncast (idp symp : List Str) (nodes : List Node) (s : ConstSym) (c : ConstNode) (v : Int)
@@ -336,23 +354,13 @@ theorem C13_const_type (idp symp : List Str) (nodes nodes' : List Node) (s : Con
   have hfx : c.fundamental = some x.1 := by rw [hf, createTypeFromCType_of_lookup hx]
   exact ⟨hfx, by unfold constTypeName; rw [hfx]⟩
 
-/-- GENUINE DEFECT, witness 1: `#define FOO_X ((gulong) -1)` in foo.h is emitted with
+/-- GENUINE DEFECT, witness: `#define FOO_X ((gulong) -1)` in foo.h is emitted with
     value "-1" although gulong is unsigned (no branch of the chain mentions TYPE_ULONG,
-    TYPE_SIZE, TYPE_UINTPTR, TYPE_LONG_ULONG). -/
+    TYPE_SIZE, TYPE_UINTPTR). -/
 theorem C13_const_range_counterexample_platform :
     createConst [c!"Foo"] [c!"foo"] []
       ⟨c!"FOO_X", some c!"/src/foo.h", none, some (-1), none, false, some c!"gulong"⟩
     = .ok (some ⟨c!"X", some c!"-1", c!"FOO_X", c!"gulong", some c!"gulong"⟩) := by
-  decide +kernel
-
-/-- GENUINE DEFECT, witness 2: `typedef guint8 FooA; typedef FooA FooB;
-    #define FOO_X ((FooB) -1)` is emitted with value "-1": alias targets are unresolved
-    while parsing, so `resolve_aliases` stops at FooB. -/
-theorem C13_const_range_counterexample_chain :
-    createConst [c!"Foo"] [c!"foo"]
-      [.alias c!"A" c!"FooA" c!"guint8", .alias c!"B" c!"FooB" c!"FooA"]
-      ⟨c!"FOO_X", some c!"/src/foo.h", none, some (-1), none, false, some c!"FooB"⟩
-    = .ok (some ⟨c!"X", some c!"-1", c!"FOO_X", c!"FooB", none⟩) := by
   decide +kernel
 
 /-- … hence the full-strength statement is false for the code as it is. -/
@@ -430,10 +438,47 @@ example :
       ⟨c!"FOO_C", some c!"/src/foo.h", none, some (-1), none, false, some c!"FooA"⟩
     = .ok (some ⟨c!"C", some c!"65535", c!"FOO_C", c!"FooA", none⟩) := by
   decide +kernel
-example : ResolvesTo1 [c!"Foo"] [.alias c!"A" c!"FooA" c!"unsigned short"]
+example : ResolvesTo [c!"Foo"] [.alias c!"A" c!"FooA" c!"unsigned short"]
     c!"FooA" c!"gushort" :=
-  .viaAlias (n := c!"A") (c := c!"FooA") (target := c!"unsigned short") (ct := c!"gushort")
-    (by decide +kernel) (by decide +kernel)
+  .viaAlias (.last (n := c!"A") (c := c!"FooA") (target := c!"unsigned short") (ct := c!"gushort")
+    (by decide +kernel) (by decide +kernel))
+-- the repaired case (/repo ecb96bb): typedef guint8 FooA; typedef FooA FooB; typedef FooB FooC;
+-- ((FooC) -1) is 255, and FooC resolves to guint8 through three typedefs
+example :
+    createConst [c!"Foo"] [c!"foo"]
+      [.alias c!"A" c!"FooA" c!"guint8", .alias c!"B" c!"FooB" c!"FooA", .alias c!"C" c!"FooC" c!"FooB"]
+      ⟨c!"FOO_X", some c!"/src/foo.h", none, some (-1), none, false, some c!"FooC"⟩
+    = .ok (some ⟨c!"X", some c!"255", c!"FOO_X", c!"FooC", none⟩) := by
+  decide +kernel
+example : ResolvesTo [c!"Foo"]
+    [.alias c!"A" c!"FooA" c!"guint8", .alias c!"B" c!"FooB" c!"FooA", .alias c!"C" c!"FooC" c!"FooB"]
+    c!"FooC" c!"guint8" :=
+  .viaAlias (.step (n := c!"C") (c := c!"FooC") (target := c!"FooB") (by decide +kernel) (by decide +kernel)
+    (.step (n := c!"B") (c := c!"FooB") (target := c!"FooA") (by decide +kernel) (by decide +kernel)
+      (.last (n := c!"A") (c := c!"FooA") (target := c!"guint8") (ct := c!"guint8")
+        (by decide +kernel) (by decide +kernel))))
+-- the repaired case (/repo 6ff1643): unsigned long long wraps modulo 2**64
+example :
+    createConst [c!"Foo"] [c!"foo"] []
+      ⟨c!"FOO_X", some c!"/src/foo.h", none, some (-1), none, false, some c!"unsigned long long"⟩
+    = .ok (some ⟨c!"X", some c!"18446744073709551615", c!"FOO_X", c!"unsigned long long",
+        some c!"unsigned long long"⟩) := by
+  decide +kernel
+example : unsignedWidth c!"unsigned long long" = some 64 ∧ c!"unsigned long long" ∉ platformUnsigned := by
+  decide +kernel
+-- a typedef that resolves to itself (typedef GdkT0 GtkT0; no GdkT0; prefixes Gtk and Gdk): the walk
+-- stops at the `seen` guard and the constant is emitted as written
+example :
+    createConst [c!"Gtk", c!"Gdk"] [c!"gtk", c!"gdk"] [.alias c!"T0" c!"GtkT0" c!"GdkT0"]
+      ⟨c!"GTK_X", some c!"/src/gtk.h", none, some (-1), none, false, some c!"GtkT0"⟩
+    = .ok (some ⟨c!"X", some c!"-1", c!"GTK_X", c!"GtkT0", none⟩) := by
+  decide +kernel
+-- a chain that ends in a platform-width type falls under the remaining defect because of its end type
+example :
+    createConst [c!"Foo"] [c!"foo"] [.alias c!"A" c!"FooA" c!"gsize", .alias c!"B" c!"FooB" c!"FooA"]
+      ⟨c!"FOO_X", some c!"/src/foo.h", none, some (-1), none, false, some c!"FooB"⟩
+    = .ok (some ⟨c!"X", some c!"-1", c!"FOO_X", c!"FooB", none⟩) := by
+  decide +kernel
 example : unsignedWidth c!"gushort" = some 16 ∧ c!"gushort" ∉ platformUnsigned := by decide +kernel
 example : unsignedWidth c!"gint64" = none := by decide +kernel
 -- C13_const_type: `unsigned short` is a key of type_names (-> gushort)
